@@ -538,6 +538,17 @@ def cand(ctx):
         # has_matched = true on every trip through the body
         hb = [b for b in body for s in fa.blocks[b]["stmts"] if _sets_flag(E, fa, s, hm_local)]
         okh = bool(hb) and nb not in fa.reachable(some_t, avoid=set(hb))
+        if not okh and ins:
+            # decided on the values instead of on the statement: on every path on which a match
+            # of this lexicon was inserted, the flag that reaches gen_unk_words is known to be
+            # true (`has_matched |= helper(..)`, a flag returned from an expanded helper, ..)
+            from flow import bool_states
+            st_ = bool_states(fa, [gb], marks={ins[0][0]: "match"})
+            if st_ is not None:
+                arr = [env for env, ms in st_[gb] if "match" in ms]
+                fpl = op_place(gt["args"][3])
+                okh = bool(arr) and fpl is not None and not fpl["p"] and \
+                    all(env.get(fpl["l"]) == 1 for env in arr)
         ctx.ob("CAND", "add_lattice_edges|%s-sets-has_matched" % label, okh, fa.loc(nb),
                "a %s-lexicon match sets the flag passed to gen_unk_words (so invoke=0 categories "
                "add no unknown word next to a dictionary word)" % label if okh else
@@ -746,6 +757,9 @@ def unkgroup(ctx):
         r_ = _unkgroup_filter(ctx, E, crate, fa, S, H, gcalls, loc)
         if r_ is not None:
             return
+        r_ = _unkgroup_table(ctx, E, crate, fa, S, H, some_t, P, gcalls, loc)
+        if r_ is not None:
+            return
     ctx.ob("UNKGROUP", "run-length-prefix-skip-present", len(conts) == 1, loc,
            "the prefix loop skips one length by an equality test (prefix length == run length)"
            if len(conts) == 1 else
@@ -854,6 +868,105 @@ def unkgroup(ctx):
            if not bad0 else
            "the flag `%s` can be set on a path with group()=false: a group=0 category loses "
            "the prefix whose length equals the run" % name)
+
+
+def _group_flag_ok(fa, L, gcalls):
+    """(when group() is true the flag is true at every use, when false false): the flag local is
+    the result of CharInfo::group() itself - assigned once, from that call, by plain moves."""
+    from r_panic import root_of
+    ds = [d for d in fa.defs().get(L, []) if d[2] != "partial"]
+    if len(ds) != 1:
+        return False
+    r = root_of(fa, {"c": {"l": L, "p": []}})
+    return r[0] == "call" and r[1] in gcalls
+
+
+def _unkgroup_table(ctx, E, crate, fa, S, H, some_t, P, gcalls, loc):
+    """The skip in any control shape (`let skip = grouped && i == run; if !skip {..}`, a guarded
+    body instead of `continue`): the loop body is run once per assignment of (flag, i == run);
+    it must go back to the loop head without scanning exactly for (true, true), and reach the
+    scan (or leave the loop) otherwise. Returns None when no `== run` test is found in the body
+    (the caller reports the missing skip)."""
+    from flow import bool_states
+    none_t = [x for x in fa.succs(fa.term(H).get("t")) if x != some_t] if fa.term(H).get("t") is not None else []
+    st_sw = fa.term(fa.term(H)["t"])
+    none_t = [tg for v, tg in zip(st_sw["vals"], st_sw["targets"]) if v == 0] or [st_sw["otherwise"]]
+    after = fa.reachable(none_t[0], avoid={H})
+    body = fa.reachable(some_t, avoid={H}) - after
+    eqs = []
+    for b in sorted(body):
+        for s0 in fa.blocks[b]["stmts"]:
+            rv = s0.get("rv")
+            if rv and rv["k"] == "binop" and rv["op"] in ("Eq", "Ne") and rv.get("ty") != "bool":
+                ea, eb = S.operand(rv["a"]), S.operand(rv["b"])
+                if _is_run(ea) or _is_run(eb):
+                    eqs.append((id(s0), rv["op"] == "Ne", show(ea), show(eb)))
+    if len(eqs) != 1:
+        return None
+    eq_id, eq_neg, ta, tb = eqs[0]
+    # flags: bool locals defined outside the body and read inside it
+    flags = set()
+    for b in sorted(body):
+        for s0 in fa.blocks[b]["stmts"]:
+            rv = s0.get("rv") or {}
+            for key in ("op", "a", "b"):
+                pl = op_place(rv.get(key)) if isinstance(rv.get(key), dict) else None
+                if pl is not None and not pl["p"] and fa.fn.locals[pl["l"]]["ty"] == "bool":
+                    ds = [d for d in fa.defs().get(pl["l"], []) if d[2] != "partial"]
+                    if ds and all(d[0] not in body for d in ds):
+                        flags.add(pl["l"])
+        t = fa.term(b)
+        if t["k"] == "switch":
+            pl = op_place(t["op"])
+            if pl is not None and not pl["p"] and fa.fn.locals[pl["l"]]["ty"] == "bool":
+                ds = [d for d in fa.defs().get(pl["l"], []) if d[2] != "partial"]
+                if ds and all(d[0] not in body for d in ds):
+                    flags.add(pl["l"])
+    names = fa.fn.local_names()
+    cands = [L for L in sorted(flags) if _group_flag_ok(fa, L, gcalls)]
+    ctx.ob("UNKGROUP", "run-length-prefix-skip-present", True, loc,
+           "the prefix loop tests prefix length == run length (%s == %s)" % (ta, tb))
+    ctx.ob("UNKGROUP", "skip-compares-with-run-length", True, loc,
+           "the tested length is the run length: %s == %s" % (ta, tb))
+    if len(cands) != 1:
+        ctx.ob("UNKGROUP", "skip-only-for-group=1", False, loc,
+               "the prefix loop's `length == run` test is not combined with a flag that is the "
+               "outcome of CharInfo::group() (flags read in the loop: %s)"
+               % [names.get(L, "_%d" % L) for L in sorted(flags)])
+        return True
+    L = cands[0]
+    table = {}
+    for fv in (0, 1):
+        for ev in (0, 1):
+            def atom(s0, ev=ev):
+                if id(s0) == eq_id:
+                    return ev ^ (1 if eq_neg else 0)
+                return None
+            st = bool_states(fa, [P, H] + sorted(after), start=some_t, env0={L: fv}, atom=atom)
+            if st is None:
+                raise EngineError("UNKGROUP: the prefix loop body has too many paths to enumerate")
+            out = set()
+            if st[P]:
+                out.add("scan")
+            if st[H]:
+                out.add("next")
+            if any(st[x] for x in after):
+                out.add("leave")
+            table[(fv, ev)] = out
+    ok1 = table[(1, 1)] == {"next"}
+    ctx.ob("UNKGROUP", "skip-whenever-group=1", ok1, loc,
+           "with group()=true (flag `%s`) the prefix whose length equals the run goes straight to "
+           "the next length, whether or not the grouped candidate was emitted" % names.get(L, "_%d" % L)
+           if ok1 else
+           "with group()=true the run-length prefix is not skipped (the loop body does: %s): the "
+           "omitted over-long run comes back as a prefix of the same length" % sorted(table[(1, 1)]))
+    ok0 = all("scan" in table[k] and "next" not in table[k] for k in ((0, 0), (0, 1), (1, 0)))
+    ctx.ob("UNKGROUP", "skip-only-for-group=1", ok0, loc,
+           "every other prefix length reaches the prefix scan (or ends the loop at the end of the "
+           "sentence); with group()=false nothing is skipped" if ok0 else
+           "a prefix that must be kept is skipped: (flag, equal) -> %s"
+           % {k: sorted(v) for k, v in table.items()})
+    return True
 
 
 def _is_run(e):
@@ -974,6 +1087,32 @@ def _unkgroup_filter(ctx, E, crate, fa, S, H, gcalls, loc):
     return True
 
 
+def _decides_error(fa, cb):
+    """the result of the call at block cb feeds a branch one side of which can only end in an
+    error (`if v.is_empty() { return Err(..) }`, `.then(..).ok_or(..)?`); a length that is merely
+    added up or stored does not reject anything"""
+    from flow import back_slice, result_exits
+    ok_b, err_b, other_b = result_exits(fa)
+    if fa.fn.j.get("kind") == "Closure":
+        # inside a closure (e.g. of an iterator adaptor) any branch on the result counts: the
+        # error is raised by the consumer
+        ok_b, err_b = set(), None
+    for b in sorted(fa.live_blocks()):
+        t = fa.term(b)
+        if t["k"] != "switch":
+            continue
+        src = back_slice(fa, t["op"], lambda bb, tt: ("call", bb) if bb == cb else None)
+        if ("call", cb) not in src:
+            continue
+        if err_b is None:
+            return True
+        for x in set(list(t["targets"]) + [t["otherwise"]]):
+            r = fa.reachable(x, avoid={b})
+            if (r & err_b) and not (r & ok_b) and not (r & other_b):
+                return True
+    return False
+
+
 def unkcover(ctx):
     """UNKCOVER (C10, C01): every character must be able to start some candidate. A character
     that no lexicon entry covers relies on the unk.def entries of its primary category, so the
@@ -1003,7 +1142,7 @@ def unkcover(ctx):
                 # the receiver must be an element (per-category list), not the flat entries table
                 ap = E.ap_operand(fa, t["args"][0])
                 per_cat = ap is not None and ("[]" in ap.proj or (q != p and ap.root[0] == "arg"))
-                if per_cat:
+                if per_cat and _decides_error(fa, b):
                     tests.append(fa.loc(b))
     ctx.floor("UNKCOVER", "calls inspected in UnkHandler::from_reader", ncalls, 10)
     ok = bool(tests)
